@@ -12,6 +12,23 @@ def TgtOk : List Ann → Prop
   | [] => True
   | a :: rest => (∃ ps, succPcs a = some ps ∧ ∀ p ∈ ps, a.pc < p ∧ ∃ b ∈ rest, b.pc = p) ∧ TgtOk rest
 
+/-- every successor of every instruction is the pc of an instruction of the listing: a later one for
+a forward successor, the instruction itself or one already passed (`seen`) for a backward one -/
+def TgtOkS : List Ann → List Ann → Prop
+  | _, [] => True
+  | seen, a :: rest =>
+    (∃ ps, succPcs a = some ps ∧ ∀ p ∈ ps,
+      (a.pc < p ∧ ∃ b ∈ rest, b.pc = p) ∨ (p ≤ a.pc ∧ ∃ b ∈ a :: seen, b.pc = p))
+    ∧ TgtOkS (a :: seen) rest
+
+theorem TgtOkS_of_TgtOk (l : List Ann) : ∀ seen, TgtOk l → TgtOkS seen l := by
+  induction l with
+  | nil => intros; trivial
+  | cons a rest ih =>
+    intro seen h
+    obtain ⟨⟨ps, hs, hps⟩, hr⟩ := h
+    exact ⟨⟨ps, hs, fun p hp => .inl (hps p hp)⟩, ih _ hr⟩
+
 theorem findPc_of_exists (l : List Ann) (p : Nat) (h : ∃ b ∈ l, b.pc = p) :
     ∃ b', findPc l p = some b' ∧ b' ∈ l := by
   obtain ⟨b, hb, hp⟩ := h
@@ -22,22 +39,31 @@ theorem findPc_of_exists (l : List Ann) (p : Nat) (h : ∃ b ∈ l, b.pc = p) :
   exact ⟨b', hb', List.mem_of_find?_eq_some hb'⟩
 
 theorem checkFrom_of (rc : Nat) (consts : List CKind) (l : List Ann) :
-    ∀ seen, (∀ a ∈ l, a.d = some Z) → (∀ a ∈ l, applyEff a.ins.op Z = some Z) →
-      (∀ a ∈ l, regsOk rc a.ins = true ∧ constsOk consts a.ins = true) → TgtOk l →
+    ∀ seen, (∀ a ∈ seen, a.d = some Z) → (∀ a ∈ l, a.d = some Z) → (∀ a ∈ l, applyEff a.ins.op Z = some Z) →
+      (∀ a ∈ l, regsOk rc a.ins = true ∧ constsOk consts a.ins = true) → TgtOkS seen l →
       checkFrom rc consts seen l = true := by
   induction l with
   | nil => intros; rfl
   | cons a rest ih =>
-    intro seen hd hn hr ht
+    intro seen hseen hd hn hr ht
     obtain ⟨⟨ps, hs, hps⟩, htr⟩ := ht
     simp only [checkFrom, Bool.and_eq_true]
-    refine ⟨?_, ih (a :: seen) (fun b hb => hd b (by simp [hb])) (fun b hb => hn b (by simp [hb]))
+    have hseen' : ∀ b ∈ a :: seen, b.d = some Z := by
+      intro b hb
+      simp at hb
+      rcases hb with rfl | hb
+      · exact hd _ (by simp)
+      · exact hseen b hb
+    refine ⟨?_, ih (a :: seen) hseen' (fun b hb => hd b (by simp [hb])) (fun b hb => hn b (by simp [hb]))
       (fun b hb => hr b (by simp [hb])) htr⟩
     have hlook : ∀ p ∈ ps, ∃ b', lookupFrom seen rest a p = some b' ∧ b'.d = some Z := by
       intro p hp
-      obtain ⟨hlt, hex⟩ := hps p hp
-      obtain ⟨b', hb', hmem⟩ := findPc_of_exists rest p hex
-      exact ⟨b', by simp [lookupFrom, hlt, hb'], hd b' (by simp [hmem])⟩
+      rcases hps p hp with ⟨hlt, hex⟩ | ⟨hle, hex⟩
+      · obtain ⟨b', hb', hmem⟩ := findPc_of_exists rest p hex
+        exact ⟨b', by simp [lookupFrom, hlt, hb'], hd b' (by simp [hmem])⟩
+      · obtain ⟨b', hb', hmem⟩ := findPc_of_exists (a :: seen) p hex
+        have hnlt : ¬ a.pc < p := by omega
+        exact ⟨b', by simp only [lookupFrom, hnlt, if_false]; exact hb', hseen' b' hmem⟩
     simp only [localOk, localChecks, List.all_cons, List.all_nil, Bool.and_true, Bool.and_eq_true]
     refine ⟨(hr a (by simp)).1, (hr a (by simp)).2, ?_, ?_⟩
     · simp only [hs, List.all_eq_true]
@@ -94,7 +120,7 @@ theorem CovU_lay (d1 d2 : Option Depth) (is : List Instr) :
 
 /-- A program `NewFrame rc; body…` of unit-free, builder-free, try-free instructions whose registers
 and constants are in range, in which control reaches every instruction (`CovU`) and every successor
-is a later instruction (`TgtOk`), is accepted by the verifier. -/
+is an instruction of the listing (`TgtOkS`), is accepted by the verifier. -/
 theorem wfChunk_of_program (rc : Nat) (body : List Instr) (consts : List CKind)
     (hv : ∀ i ∈ (⟨.NewFrame, [rc]⟩ :: body : List Instr), i.valid = true)
     (hf : ∀ i ∈ body, i.op ≠ .Function) (hnf : ∀ i ∈ body, i.op ≠ .NewFrame)
@@ -102,7 +128,7 @@ theorem wfChunk_of_program (rc : Nat) (body : List Instr) (consts : List CKind)
     (hlin : ∀ i ∈ body, ∀ s t, linStep i.op s t = some (s, t))
     (hregs : ∀ i ∈ body, regsOk rc i = true) (hconsts : ∀ i ∈ body, constsOk consts i = true)
     (hcov : CovU true [] (lay (some Z) 0 (⟨.NewFrame, [rc]⟩ :: body)))
-    (htgt : TgtOk (lay (some Z) 0 (⟨.NewFrame, [rc]⟩ :: body))) :
+    (htgt : TgtOkS [] (lay (some Z) 0 (⟨.NewFrame, [rc]⟩ :: body))) :
     wfChunk ((⟨.NewFrame, [rc]⟩ :: body : List Instr).flatMap encode) consts = true := by
   generalize hnf0 : (⟨.NewFrame, [rc]⟩ : Instr) = nf at *
   have hprog : ∀ i ∈ (nf :: body), i.op ≠ .Function := by
@@ -154,7 +180,7 @@ theorem wfChunk_of_program (rc : Nat) (body : List Instr) (consts : List CKind)
   · exact pcsFrom_lay (some Z) (nf :: body) hv 0 0 (Nat.le_refl _)
   · have : argAt nf 0 = rc := by simp [← hnf0, argAt]
     rw [this]
-    apply checkFrom_of rc consts _ [] hd
+    apply checkFrom_of rc consts _ [] (by intro a ha; simp at ha) hd
     · intro a ha; exact hneut _ (lay_mem _ _ _ _ ha).1 Z
     · intro a ha
       have hm := (lay_mem _ _ _ _ ha).1
